@@ -701,10 +701,10 @@ fn delimiter_option_slice(ctx: &mut Ctx) {
     let vrec = crate::engine::self_bin_dir().join("vrec");
     let log = ctx.sbx.join(".mc-vrec.log");
     // (operand, delimiter bytes it names)
-    let cases: [(&str, &[u8]); 10] = [(",", b","), ("\\n", b"\n"), ("\\0", b"\0"), ("\\00", b"\0"), ("\\x2c", b","), ("\\054", b","), ("\\t", b"\t"), ("\u{e9}", "\u{e9}".as_bytes()), ("\u{e0}", "\u{e0}".as_bytes()), ("ab", b"ab")];
+    let cases: [(&str, &[u8]); 17] = [(",", b","), ("\\n", b"\n"), ("\\0", b"\0"), ("\\00", b"\0"), ("\\x2c", b","), ("\\054", b","), ("\\t", b"\t"), ("\\f", b"\x0c"), ("\\v", b"\x0b"), ("\\a", b"\x07"), ("\\b", b"\x08"), ("\\r", b"\r"), ("\\\\", b"\\"), ("\\x0c", b"\x0c"), ("\u{e9}", "\u{e9}".as_bytes()), ("\u{e0}", "\u{e0}".as_bytes()), ("ab", b"ab")];
     for (operand, delim) in cases {
         // (a NUL can only be in the input when it is the delimiter: it cannot be part of an argument)
-        let input: Vec<u8> = format!("one\u{e9}tw\u{e0}o,thr\u{e9}e\tfo ur\nfi'v\"e{}si\\x ab seven", if delim == b"\0" { "\0" } else { ";" }).into_bytes();
+        let input: Vec<u8> = format!("one\u{e9}tw\u{e0}o,thr\u{e9}e\tfo ur\nfi'v\"e{}si\\x ab seven\x0ceight\x0bnine\x07ten\x08eleven\rtwelve", if delim == b"\0" { "\0" } else { ";" }).into_bytes();
         // every way of writing the option: -d OP, -dOP, --delimiter OP, --delimiter=OP (for NUL also -0, --null)
         let mut forms: Vec<Vec<String>> = vec![vec!["-d".into(), operand.to_string()], vec![format!("-d{operand}")], vec!["--delimiter".into(), operand.to_string()], vec![format!("--delimiter={operand}")]];
         if operand == "\\00" {
